@@ -9,7 +9,7 @@ for d in sorted(glob.glob(os.path.join(ROOT, "seeded", "C??-*"))):
     name = os.path.basename(d)
     parts = name.split("-")
     prop, k = parts[0], parts[-1]
-    incdir = {"r2": "_incoming2", "r3": "_incoming3"}.get(parts[1], "_incoming") if len(parts) == 3 else "_incoming"
+    incdir = {"r2": "_incoming2", "r3": "_incoming3", "r4": "_incoming4"}.get(parts[1], "_incoming") if len(parts) == 3 else "_incoming"
     inc = os.path.join(ROOT, "seeded", incdir, prop, k, "detection.json")
     if os.path.exists(inc):
         shutil.copy(inc, os.path.join(d, "detection.json"))
